@@ -133,4 +133,28 @@ def poolRoute (rx : Rx) (apps : List (MountPoint × Opts)) (meth h s p : Bytes) 
   (poolFind rx (apps.map (·.1)) h s p).map fun (i, m) =>
     (i, main rx (some meth) ((apps[i]?.map (·.2)).getD .nil) m)
 
+/-- The order in which mounted applications are considered: pools and factories in their mount order, **then**
+the classic asynchronous applications (mounted as `intrusive_ptr`) in their mount order, those that have died
+left out.  Entries are `(legacyAsync, mount point)`, numbered by overall mount order. -/
+def scanOrder (ms : List (Bool × MountPoint)) (dead : List Nat) : List (Nat × MountPoint) :=
+  (ms.zipIdx.filterMap fun (am, i) => if am.1 == false then some (i, am.2) else none) ++
+  ((ms.zipIdx.filterMap fun (am, i) => if am.1 == true then some (i, am.2) else none).filter fun im => !dead.contains im.1)
+
+/-- first mount point in `scanOrder` that accepts -/
+def poolFindAll (rx : Rx) (ms : List (Bool × MountPoint)) (dead : List Nat) (h s p : Bytes) : Option (Nat × Bytes) :=
+  (scanOrder ms dead).findSome? fun im => (mpMatch rx im.2 h s p).map fun m => (im.1, m)
+
+def poolKill (rx : Rx) (ms : List (Bool × MountPoint)) (h s p : Bytes) : Nat → List Nat → List Nat
+  | 0, dead => dead
+  | r + 1, dead =>
+    match poolFindAll rx ms dead h s p with
+    | some (i, _) => if (ms[i]?.map (·.1)).getD false then poolKill rx ms h s p r (i :: dead) else dead
+    | none => dead
+
+def poolRouteAll (rx : Rx) (apps : List (Bool × MountPoint × Opts)) (rounds : Nat) (meth h s p : Bytes) :
+    Option (Nat × Bytes × List Event) :=
+  let ms := apps.map fun a => (a.1, a.2.1)
+  (poolFindAll rx ms (poolKill rx ms h s p rounds []) h s p).map fun (i, m) =>
+    (i, m, main rx (some meth) ((apps[i]?.map (·.2.2)).getD .nil) m)
+
 end Cppcms.C20.Spec
